@@ -134,7 +134,9 @@ func (p *Path) TreePrefix() string {
 		case p.relativePath != "":
 			return p.relativePath + "/"
 		default:
-			return "???"
+			// We don't know how this tree can be reached, so name
+			// it by its OID.
+			return p.OID.String() + ":"
 		}
 	case "commit", "tag":
 		switch {
